@@ -13,6 +13,8 @@ def adversarial():
     out.append([["busauto", False], ["sub", 1, "A", 2], ["polls", 1], ["sub", 2, "A", 2], ["polls", 2], ["quiesce"], ["busreply"], ["quiesce"],
                 ["dropstream", 1], ["dropstream", 2], ["quiesce"], ["sub", 3, "A", 2], ["polls", 3], ["quiesce"], ["busreply"], ["quiesce"], ["busreply"], ["quiesce"],
                 ["busauto", True], ["quiesce"], ["dropstream", 3], ["quiesce"]])
+    # AsyncDrop of one of two equal streams
+    out.append([["sub", 1, "A", 2], ["sub", 2, "A", 2], ["quiesce"], ["asyncdrop", 1], ["quiesce"], ["asyncdrop", 2], ["quiesce"]])
     # drop immediately after create
     out.append([["sub", 1, "A", 2], ["quiesce"], ["dropstream", 1], ["sub", 2, "A", 2], ["quiesce"], ["dropstream", 2], ["quiesce"]])
     # proxies and their signal streams (well-known and unique destinations)
@@ -35,7 +37,7 @@ def random_steps(rnd):
         elif r < 0.5 and live:
             s = rnd.choice(live)
             live.remove(s)
-            steps.append(["dropstream", s])
+            steps.append([rnd.choice(["dropstream", "dropstream", "asyncdrop"]), s])
         elif r < 0.58 and px <= 3:
             steps += [["proxysig", px, rnd.choice(["org.verif.Peer", ":1.5"]), rnd.choice(["A", "B"])], ["pollp", px]]
             livep.append(px)
